@@ -25,7 +25,7 @@ from vf.engine import evid, par
 from vf.ref import ber
 from vf.ref import ldap as R
 
-LENFORMS = ["81", "82", "84", "85"]
+LENFORMS = ["81", "82", "84", "85", "88"]
 TRUES = [b"\x01", b"\x80"]
 Choice = t.Tuple[int, str, t.Any]  # (node index, kind, option)
 
@@ -82,6 +82,10 @@ def choices(tree: ber.Node) -> t.List[Choice]:
                 out.append((i, "junk", "app7"))
                 out.append((i, "junk", "priv10"))
                 out.append((i, "junk", "app1-11"))
+                out.append((i, "junk", "many"))
+                if name == "LDAPMessage" and len(n.children or []) >= 3:
+                    out.append((i, "junk", "before-controls-1"))
+                    out.append((i, "junk", "before-controls-20"))
     return out
 
 
@@ -120,6 +124,11 @@ def render(tree: ber.Node, chosen: t.Sequence[Choice]) -> bytes:
                 n.children.append(ber.Node(ber.PRIVATE, False, 10, b"9.9.9"))
             elif opt == "app1-11":
                 n.children += [ber.Node(ber.APPLICATION, False, 1, b"q"), ber.Node(ber.PRIVATE, False, 11, b"r"), ber.Node(ber.UNIVERSAL, False, 10, b"\x05"), ber.Node(ber.APPLICATION, False, 3, b"")]
+            elif opt == "many":
+                n.children += [ber.Node(ber.CONTEXT, False, 40 + k, bytes([k])) for k in range(20)]
+            elif opt in ("before-controls-1", "before-controls-20"):
+                extra = [ber.Node(ber.CONTEXT, False, 40 + k, bytes([k])) for k in range(1 if opt.endswith("-1") else 20)]
+                n.children[2:2] = extra
             elif opt == "hightag":
                 # content chosen so that a mis-read length would expose bytes that parse as further elements
                 inner = ber.encode(ber.Node(ber.CONTEXT, True, 0, None, [ber.Node(ber.UNIVERSAL, True, 16, None, [ber.Node(ber.UNIVERSAL, False, 4, b"9.9"), ber.Node(ber.UNIVERSAL, False, 1, b"\xff")])]))
@@ -269,6 +278,9 @@ def _work(job: t.Tuple[str, int, int]) -> evid.Local:
 
 def rich_bases() -> t.List[t.Any]:
     out = list(c05.base_messages())
+    # values of 64 KiB and more (a peer writes their lengths with 3, 4, 5 or 8 octets)
+    out.append(L.ExtendedRequest(1, [], "1.2", b"v" * 70000))
+    out.append(L.SearchResultEntry(1, [], "cn=x", [L.PartialAttribute("jpegPhoto", [b"j" * 200000])]))
     for k in U.kinds():
         out.append(k.make(k.default_values()))
     return out
